@@ -68,49 +68,9 @@ Proof.
   apply (Permutation_in _ (sort_desc_perm ps)). auto.
 Qed.
 
-(* ---------------- _scaling_to_weight_matrix: code vs specification ---------------- *)
-Lemma first_ge_lt l lvl k : first_ge l lvl = Some k -> (k < length l)%nat.
-Proof. revert k. induction l as [|x t IH]; simpl; [discriminate|]. intros k. destruct (lvl <=? x)%Z.
-  intro H; inversion H; lia. destruct (first_ge t lvl); simpl; [|discriminate]. intro H; inversion H. specialize (IH n eq_refl). lia. Qed.
-Lemma argmax_ge_bound l lvl : (argmax_ge l lvl <= length l - 1)%nat.
-Proof. unfold argmax_ge. destruct (first_ge l lvl) eqn:E; [|lia]. apply first_ge_lt in E. lia. Qed.
-
-(* two initial values that both exceed every possible crossover index give the same placements *)
-Lemma level_fold_init M aw level cols (B : nat) :
-  (forall c, argmax_ge (rev (colz M c)) (Z.of_nat level) <= B)%nat ->
-  forall l1 l2 acc, (l1 = l2 \/ (B < l1 /\ B < l2))%nat ->
-  snd (fold_left (level_step M aw level) cols (l1, acc)) = snd (fold_left (level_step M aw level) cols (l2, acc)).
-Proof.
-  intros HB. induction cols as [|c r IH]; intros l1 l2 acc H; simpl; auto.
-  destruct H as [->|[H1 H2]]; auto.
-  specialize (HB c). set (pi := argmax_ge (rev (colz M c)) (Z.of_nat level)) in *.
-  assert (E1 : (l1 <=? pi)%nat = false) by (apply Nat.leb_gt; lia).
-  assert (E2 : (l2 <=? pi)%nat = false) by (apply Nat.leb_gt; lia).
-  rewrite E1, E2. destruct (0 <? pi)%nat; apply IH; auto.
-Qed.
-
-Lemma scaling_code_eq_spec M aw :
-  M <> [] -> (length M - 1 <= max_level M aw)%nat -> scaling_to_wm M aw = scaling_to_wm_spec M aw.
-Proof.
-  intros Hne H. unfold scaling_to_wm, scaling_to_wm_spec, scaling_to_wm_with.
-  assert (E : placements (max_level M aw + 1) M aw = placements (length M) M aw).
-  { unfold placements. apply flat_map_ext. intro level.
-    apply level_fold_init with (B := (length M - 1)%nat).
-    - intro c. pose proof (argmax_ge_bound (rev (colz M c)) (Z.of_nat level)) as Hb.
-      unfold colz in Hb. rewrite rev_length, map_length in Hb. exact Hb.
-    - right. destruct M; [congruence|]. simpl in *. lia. }
-  rewrite E. reflexivity.
-Qed.
-
-(* ... and without that hypothesis the code is NOT the specification: with 2 probability thresholds, one warning
-   level and one assessment weight, the weight of the only decision point is dropped although every documented
-   check passes; appending an assessment weight for a level that never occurs changes the result *)
+(* ---------------- regression witness of the repaired initialisation (commit 73a32af in /repo) ---------------- *)
 Definition M_wit : list (list Z) := [[0; 1]; [0; 0]; [0; 0]]%Z.
-Lemma scaling_spec_refuted :
-  (exists r, wfs_m true M_wit [1] [1#4; 1#2] 1 = Ok r) /\
-  wfs_m false M_wit [1] [1#4; 1#2] 1 = Ok ([1#2; 1#4], [[0]; [0]]) /\
-  wfs_m true M_wit [1] [1#4; 1#2] 1 = Ok ([1#2; 1#4], [[1 + 0]; [0]]).
-Proof. split; [eexists|split]; vm_compute; reflexivity. Qed.
-Lemma scaling_depends_on_unused_weight :
-  scaling_to_wm M_wit [1] = [[0]; [0]] /\ scaling_to_wm M_wit [1; 5] = [[1 + 0]; [0]].
+Lemma scaling_witness :
+  wfs_m false M_wit [1] [1#4; 1#2] 1 = Ok ([1#2; 1#4], [[1 + 0]; [0]]) /\
+  scaling_to_wm M_wit [1] = scaling_to_wm M_wit [1; 5].
 Proof. split; vm_compute; reflexivity. Qed.
